@@ -42,6 +42,7 @@ class Path:
         self.nret = 0
         self.visited = []
         self.heap = {}           # event index of a call result -> values stored through pointers derived from it
+        self.mutrefs = frozenset()   # locals that hold a `&mut` borrow
 
     def fork(self):
         p = Path()
@@ -55,6 +56,7 @@ class Path:
         p.nret = self.nret
         p.visited = list(self.visited)
         p.heap = dict(self.heap)
+        p.mutrefs = self.mutrefs
         return p
 
 
@@ -252,6 +254,8 @@ class Executor:
         if m and not rv.startswith("&&"):
             try:
                 self.write(dst, ("ref", self.resolve(parse_place(m.group(1)), path)), path)
+                if rv.startswith("&mut ") or rv.startswith("&raw mut "):
+                    path.mutrefs = path.mutrefs | {self.resolve(dst, path)}
                 return
             except ValueError:
                 pass
@@ -296,7 +300,16 @@ class Executor:
             m = re.match(r"^\{[^}]*\} \{ (.*) \}$", rv)
             if m:
                 try:
-                    caps = tuple(self.operand(x.split(": ", 1)[1], path) for x in split_top(m.group(1)) if ": " in x)
+                    fields = [x.split(": ", 1)[1] for x in split_top(m.group(1)) if ": " in x]
+                    # a local captured through `&mut`: the closure may assign to it whenever it runs
+                    mutcaps = []
+                    for ftxt in fields:
+                        mm = re.match(r"^(?:move|copy) (_\d+)$", ftxt.strip())
+                        if mm and mm.group(1) in path.mutrefs:
+                            v = path.mem.get(mm.group(1))
+                            if isinstance(v, tuple) and v and v[0] == "ref":
+                                mutcaps.append(("mutcap", v[1]))
+                    caps = tuple(self.operand(x, path) for x in fields)
                     # a captured reference: also what it points to now
                     extra = []
                     for c in caps:
@@ -305,7 +318,7 @@ class Executor:
                                 extra.append(("pointee", c[1], self.read(c[1], path)))
                             except Exception:
                                 pass
-                    caps = caps + tuple(extra)
+                    caps = caps + tuple(extra) + tuple(mutcaps)
                 except (ValueError, Unsupported, IndexError):
                     caps = ()
             self.write(dst, ("closure", rv.split(" ")[0][:120], caps) if caps else ("closure", rv.split(" ")[0][:120]), path)
@@ -618,6 +631,17 @@ class Executor:
             ev["ret"] = res
         if dst is not None:
             self.write(dst, res, path)
+        # closures handed to this call may have assigned to the locals they captured by `&mut`
+        idx = len(path.events) - 1
+        for a in args:
+            b = a
+            while isinstance(b, tuple) and b and b[0] in ("via", "clone"):
+                b = b[2] if b[0] == "via" else b[1]
+            if isinstance(b, tuple) and len(b) > 2 and b[0] == "closure":
+                for c in b[2]:
+                    if isinstance(c, tuple) and c and c[0] == "mutcap":
+                        old = path.mem.get(c[1])
+                        self.write(c[1], ("havoc", idx, c[1], old), path)
 
     def model(self, short, callee, args, args_txt, path):
         """semantics of a few std helpers; None = uninterpreted environment call"""
